@@ -8,7 +8,7 @@
 (* and HttpMsg and the flow-control / dispatch / GOAWAY ledgers; each        *)
 (* violated clause is reported as "<property>:<clause>".                     *)
 (* One initial state per trace; one TLC state per event.                     *)
-EXTENDS RFC7540, HttpMsg, TLC, Json, IOUtils
+EXTENDS RFC7540, HttpMsg, TLC, Json, IOUtils, SequencesExt
 
 Traces == ndJsonDeserialize(IOEnv.VERIF_TRACE)
 
@@ -107,10 +107,39 @@ ReqExtras(mm, f, r) ==
      (IF toolarge THEN {CE(E_CALM), CE(E_PROTO), SE(AnyCode), RESP4} ELSE {}) \cup
      (IF clTooBig \/ bodyTooBig THEN {SE(AnyCode), RESP4} ELSE {})
 
------------------------------------------------------------------------------
+------------------------------------------------------------------------(* Stream-state bookkeeping for frame f once its outcome is known: errOnSid = the server reset    *)
+(* f.sid in reaction, connErrNow = it answered with GOAWAY / close.  Used at a quiescent point   *)
+(* for the frame in flight, and for the earlier frames of a burst (assumed processed).           *)
+Transition(mm, f, errOnSid, connErrNow) ==
+  LET r == St(mm, f.sid)
+      processed == ~errOnSid /\ ~connErrNow /\ P \in Tolerate(mm.allowed)
+      q0 == QOf(mm, f.sid)
+      q1 == IF f.sid = 0 THEN q0
+            ELSE IF errOnSid THEN (IF f.ty = T_PRIORITY \/ q0 \in ClosedStates THEN q0 ELSE "cLocalRst")
+            ELSE IF processed THEN NextOnProcess(f, q0)
+            ELSE q0
+      isReqBlockEnd == processed /\ f.ty \in {T_HEADERS, T_CONT} /\ f.eh /\ (f.ty = T_CONT \/ f.first)
+      r1 == IF f.sid = 0 THEN r
+            ELSE LET ra == [r EXCEPT !.q = IF q1 = "cImpl" \/ (q1 = "idle" /\ f.ty # T_HEADERS) THEN r.q ELSE q1,
+                                     !.refused = @ \/ (errOnSid /\ q0 = "idle" /\ f.ty = T_HEADERS),
+                                     !.rstByPeer = @ \/ (processed /\ f.ty = T_RST),
+                                     !.closedAt = IF q1 \in ClosedStates /\ r.closedAt < 0 /\ q1 # "cImpl" THEN mm.closes ELSE @]
+                     rb == IF processed /\ f.ty = T_HEADERS /\ q0 = "idle"
+                           THEN [ra EXCEPT !.grant = mm.peerIW, !.srvGrant = mm.srvIW] ELSE ra
+                     rc == IF isReqBlockEnd /\ ~r.hasReq THEN [rb EXCEPT !.req = rb.pblk, !.hasReq = TRUE, !.peerES = rb.pblkES]
+                           ELSE IF isReqBlockEnd /\ r.hasReq THEN [rb EXCEPT !.trl = rb.pblk, !.hasTrl = TRUE, !.peerES = @ \/ rb.pblkES]
+                           ELSE IF processed /\ f.ty = T_DATA /\ f.es THEN [rb EXCEPT !.peerES = TRUE]
+                           ELSE rb
+                 IN rc
+      closedNow == f.sid # 0 /\ q1 \in ClosedStates /\ r.closedAt < 0 /\ q1 # "cImpl"
+      m1 == IF f.sid # 0 /\ (f.sid \in DOMAIN mm.s \/ q1 # "idle") THEN Put(mm, f.sid, r1) ELSE mm
+  IN [m1 EXCEPT !.maxSid = IF f.ty = T_HEADERS /\ f.sid % 2 = 1 /\ f.sid > @ /\ (processed \/ errOnSid) THEN f.sid ELSE @,
+                !.closes = @ + (IF closedNow THEN 1 ELSE 0)]
+
+-----
 (* send: the peer put frame f on the wire.                                   *)
 OnSend(mm0, f) ==
-  LET mm == IF mm0.hasCur THEN [mm0 EXCEPT !.multi = TRUE] ELSE mm0
+  LET mm == IF mm0.hasCur THEN [Transition(mm0, mm0.cur, FALSE, FALSE) EXCEPT !.multi = TRUE] ELSE mm0
       r == St(mm, f.sid)
       q == QOf(mm, f.sid)
       al == Allowed(f, q, Ctx(mm), SCtx(mm, f.sid)) \cup
@@ -213,11 +242,16 @@ OnHStart(mm, e) ==
       c1 == FlagIf(m1, r.hs >= 1, "C01:handler-ran-twice")
       c2 == FlagIf(c1, mm.goaways # <<>> /\ e.sid > mm.goaways[1].last, "C10:dispatch-above-goaway-last-stream-id")
       c3 == FlagIf(c2, mm.connErr /\ e.sid \notin DOMAIN mm.s, "C10:dispatch-of-stream-first-seen-after-connection-error")
-  IN c3
+      c4 == FlagIf(c3, e.blen > MaxBody(mm), "C13:handler-given-body-over-max-request-body-size")
+      c5 == FlagIf(c4, FoldLeft(LAMBDA acc, f : acc + Len(f[1]) + Len(f[2]) + 32, 0, e.fields) > MaxHdr(mm) + 64, "C13:handler-given-header-list-over-max-header-list-size")
+  IN c5
 
 OnHEnd(mm, e) ==
   LET r == St(mm, e.sid) IN
-  Put(mm, e.sid, [r EXCEPT !.he = @ + 1, !.resp = [kind |-> e.kind, n |-> e.n, status |-> e.status, hdrs |-> e.hdrs]])
+  \* a panicking handler is answered with an empty 500 (documented behaviour, as fasthttp does over HTTP/1)
+  Put(mm, e.sid, [r EXCEPT !.he = @ + 1,
+                           !.resp = IF e.kind = "panic" THEN [kind |-> "panic", n |-> 0, status |-> 500, hdrs |-> <<>>]
+                                    ELSE [kind |-> e.kind, n |-> e.n, status |-> e.status, hdrs |-> e.hdrs]])
 
 -----------------------------------------------------------------------------
 (* q: a quiescence snapshot.  Judges the reaction to the frame in flight,    *)
@@ -253,12 +287,10 @@ JudgeDispatch(mm, sid) ==
 Progress(mm, e) ==
   LET stalled == {sid \in DOMAIN mm.s :
                     LET r == mm.s[sid] IN
-                    r.he = 1 /\ r.rh = 1 /\ r.res = 0 /\ ~r.rstByUs /\ ~r.rstByPeer /\ r.resp.kind # "panic"
-                    /\ r.rb < r.resp.n /\ r.grant - r.sent > 0 /\ mm.grantC - mm.sentC > 0}
+                    r.he = 1 /\ r.rh = 1 /\ r.res = 0 /\ ~r.rstByUs /\ ~r.rstByPeer /\ r.rb < r.resp.n /\ r.grant - r.sent > 0 /\ mm.grantC - mm.sentC > 0}
       noEnd == {sid \in DOMAIN mm.s :
                     LET r == mm.s[sid] IN
-                    r.he = 1 /\ r.res = 0 /\ ~r.rstByUs /\ ~r.rstByPeer /\ r.resp.kind # "panic"
-                    /\ (r.rh = 0 \/ r.rb >= r.resp.n)}
+                    r.he = 1 /\ r.res = 0 /\ ~r.rstByUs /\ ~r.rstByPeer /\ (r.rh = 0 \/ r.rb >= r.resp.n)}
       starvedS == {sid \in DOMAIN mm.s : LET r == mm.s[sid] IN r.q = "open" /\ r.srvGrant - r.flowSent <= 0}
       live == ~mm.closed /\ ~mm.connErr /\ ~e.ret /\ ~e.settled /\ ~e.slx /\ ~mm.peerGone
       c1 == FlagIf(mm, live /\ stalled # {}, "C06:response-stalled-with-open-windows")
@@ -275,43 +307,25 @@ Progress(mm, e) ==
 
 OnQ(mm, e) ==
   LET f == mm.cur
-      r == St(mm, f.sid)
       judged == mm.hasCur /\ ~mm.multi /\ ~mm.connErrBefore
       obs == [rst |-> mm.obs.rst, goaway |-> mm.obs.goaway, closed |-> mm.obs.closed /\ ~mm.peerGone]
-      al == mm.allowed \cup (IF mm.obs.r4xx # {} THEN {} ELSE {})
+      al == mm.allowed
       rOK == ReactionOK(f, obs, al)
             \/ (f.sid \in mm.obs.r4xx /\ RESP4 \in al /\ obs.rst \subseteq {} /\ obs.goaway = {})
       errOnSid == \E x \in mm.obs.rst : x[1] = f.sid
       connErrNow == mm.obs.goaway # {} \/ (mm.obs.closed /\ ~mm.peerGone)
-      processed == mm.hasCur /\ ~errOnSid /\ ~connErrNow /\ P \in Tolerate(al)
       c0 == FlagIf(mm, judged /\ ~rOK,
                    "C08:reaction-not-allowed ty=" \o ToString(f.ty) \o " state=" \o QOf(mm, f.sid) \o
                    " rst=" \o ToString(obs.rst) \o " goaway=" \o ToString(obs.goaway) \o " closed=" \o ToString(obs.closed))
       c1 == FlagIf(c0, judged /\ obs.goaway # {} /\ ~(\E x \in Tolerate(al) : x.k = "cerr"), "C10:goaway-without-connection-offence")
-      \* stream-state transition
-      q0 == QOf(mm, f.sid)
-      q1 == IF ~mm.hasCur \/ f.sid = 0 THEN q0
-            ELSE IF errOnSid THEN (IF f.ty = T_PRIORITY \/ q0 \in ClosedStates THEN q0 ELSE "cLocalRst")
-            ELSE IF processed THEN NextOnProcess(f, q0)
-            ELSE q0
-      isReqBlockEnd == processed /\ f.ty \in {T_HEADERS, T_CONT} /\ f.eh /\ (f.ty = T_CONT \/ f.first)
-      r1 == IF f.sid = 0 \/ ~mm.hasCur THEN r
-            ELSE LET ra == [r EXCEPT !.q = IF q1 = "cImpl" \/ (q1 = "idle" /\ f.ty # T_HEADERS) THEN r.q ELSE q1,
-                                     !.refused = @ \/ (errOnSid /\ q0 = "idle" /\ f.ty = T_HEADERS),
-                                     !.rstByPeer = @ \/ (processed /\ f.ty = T_RST),
-                                     !.closedAt = IF q1 \in ClosedStates /\ r.closedAt < 0 /\ q1 # "cImpl" THEN mm.closes ELSE @]
-                     rb == IF processed /\ f.ty = T_HEADERS /\ q0 = "idle"
-                           THEN [ra EXCEPT !.grant = mm.peerIW, !.srvGrant = mm.srvIW] ELSE ra
-                     rc == IF isReqBlockEnd /\ ~r.hasReq THEN [rb EXCEPT !.req = rb.pblk, !.hasReq = TRUE, !.peerES = rb.pblkES]
-                           ELSE IF isReqBlockEnd /\ r.hasReq THEN [rb EXCEPT !.trl = rb.pblk, !.hasTrl = TRUE, !.peerES = @ \/ rb.pblkES]
-                           ELSE IF processed /\ f.ty = T_DATA /\ f.es THEN [rb EXCEPT !.peerES = TRUE]
-                           ELSE rb
-                 IN rc
-      closedNow == f.sid # 0 /\ mm.hasCur /\ q1 \in ClosedStates /\ r.closedAt < 0 /\ q1 # "cImpl"
-      m1 == IF f.sid # 0 /\ mm.hasCur /\ (f.sid \in DOMAIN mm.s \/ q1 # "idle") THEN Put(c1, f.sid, r1) ELSE c1
-      m2 == [m1 EXCEPT !.maxSid = IF mm.hasCur /\ f.ty = T_HEADERS /\ f.sid % 2 = 1 /\ f.sid > @ /\ (processed \/ errOnSid) THEN f.sid ELSE @,
-                       !.closes = @ + (IF closedNow THEN 1 ELSE 0),
-                       !.hasCur = FALSE, !.multi = FALSE, !.obs = NoObs,
+      t1 == IF mm.hasCur THEN Transition(c1, f, errOnSid, connErrNow) ELSE c1
+      \* in a burst the resets seen belong to earlier frames: those streams are locally reset too
+      t2 == IF mm.multi
+            THEN [t1 EXCEPT !.s = [sid \in DOMAIN t1.s |->
+                     IF (\E x \in mm.obs.rst : x[1] = sid) /\ t1.s[sid].q \notin ClosedStates
+                     THEN [t1.s[sid] EXCEPT !.q = "cLocalRst", !.closedAt = t1.closes] ELSE t1.s[sid]]]
+            ELSE t1
+      m2 == [t2 EXCEPT !.hasCur = FALSE, !.multi = FALSE, !.obs = NoObs,
                        !.connErrBefore = mm.connErrBefore \/ mm.connErr,
                        !.settledMode = e.settled]
       \* streams whose response completed leave hcr
@@ -319,20 +333,30 @@ OnQ(mm, e) ==
                   LET x == m2.s[sid] IN
                   IF x.q = "hcr" /\ x.res >= 1 THEN [x EXCEPT !.q = "cEnd", !.closedAt = m2.closes] ELSE x],
                   !.closes = @ + Cardinality({sid \in DOMAIN m2.s : m2.s[sid].q = "hcr" /\ m2.s[sid].res >= 1})]
-      sidsToJudge == IF mm.hasCur /\ f.sid # 0 /\ f.sid \in DOMAIN m3.s THEN {f.sid} ELSE {}
-      m4 == IF sidsToJudge = {} THEN m3 ELSE JudgeDispatch(m3, f.sid)
+      sidsToJudge == IF mm.multi THEN {sid \in DOMAIN m3.s : sid # 0}
+                     ELSE IF mm.hasCur /\ f.sid # 0 /\ f.sid \in DOMAIN m3.s THEN {f.sid} ELSE {}
+      m4 == FoldLeft(LAMBDA acc, sid : JudgeDispatch(acc, sid), m3, SetToSeq(sidsToJudge))
   IN Progress(m4, e)
 
-OnEof(mm) == [mm EXCEPT !.obs.closed = TRUE, !.closed = TRUE]
+OnEof(mm) == [mm EXCEPT !.obs.closed = TRUE, !.closed = TRUE, !.closedBeforePeer = @ \/ ~mm.peerGone]
 
 OnEnd(mm, e) ==
-  LET c1 == FlagIf(mm, ~e.returned, "C17:serveconn-did-not-return-after-peer-gone")
+  LET c0 == FlagIf(mm, mm.cfg.noconnerr /\ (mm.goaways # <<>> \/ mm.closedBeforePeer), "C09:connection-torn-down-by-stream-scoped-offence")
+      c1 == FlagIf(c0, ~e.returned, "C17:serveconn-did-not-return-after-peer-gone")
       c2 == FlagIf(c1, e.leaked > 0, "C17:goroutines-left-behind")
       c3 == FlagIf(c2, e.panics - e.handlerpanics > 0, "C17:recovered-panic-in-connection-code")
       c4 == FlagIf(c3, e.qtimeout, "X:quiescence-timeout")
   IN c4
 
-OnRet(mm, e) == FlagIf(mm, ~e.intime, "C10:serveconn-did-not-return-in-time " \o e.err)
+\* After a connection error (GOAWAY with an error code, or a bare close) the connection handler must
+\* return once the streams it promised (ids up to last-stream-id) have finished.
+OnRet(mm, e) ==
+  LET last == IF mm.goaways = <<>> THEN 0 ELSE mm.goaways[1].last
+      \* once the peer has seen the connection end only a handler that is still running counts as unfinished
+      unfinished == {sid \in DOMAIN mm.s : sid <= last /\
+                        ((mm.s[sid].hs >= 1 /\ mm.s[sid].he = 0) \/ (~mm.closed /\ mm.s[sid].q \in {"open", "hcr"}))}
+  IN FlagIf(mm, ~e.intime /\ (mm.connErr \/ mm.closed) /\ unfinished = {},
+            "C10:serveconn-did-not-return-after-connection-error " \o e.err)
 
 Step(mm, e) ==
   CASE e.k = "send"  -> OnSend(mm, e.f)
@@ -344,13 +368,14 @@ Step(mm, e) ==
     [] e.k = "peerclose" -> [mm EXCEPT !.peerGone = TRUE]
     [] e.k = "end"   -> OnEnd(mm, e)
     [] e.k = "ret"   -> OnRet(mm, e)
+    [] e.k = "runaway" -> Flag(Flag(mm, "C06:runaway-output"), "C01:runaway-output")
     [] e.k = "qtimeout" -> Flag(mm, "X:quiescence-timeout")
     [] e.k = "driverpanic" -> Flag(mm, "X:driver-panic")
     [] OTHER -> mm
 
 Init == /\ ti \in 1..Len(Traces)
         /\ l = 1
-        /\ m = [M0(Traces[ti]) EXCEPT !.bad = {}] @@ [connErrBefore |-> FALSE]
+        /\ m = [M0(Traces[ti]) EXCEPT !.bad = {}] @@ [connErrBefore |-> FALSE, closedBeforePeer |-> FALSE]
 
 Next ==
   \/ /\ l <= Len(Traces[ti].evs)
